@@ -188,6 +188,19 @@ class KeyedList(Generic[ItemType, KeyType], MutableSequence, KeyedBase):  # pyli
         self._list.insert(index, item)
         self._dict[key] = item
 
+    def extend(self, values):
+        validated = [self._validate_item(value) for value in values]
+        keys = set()
+        for _, key in validated:
+            if key in self._dict or key in keys:
+                raise ValueError(
+                    f"Item with key `{repr(key)}` already in `{type_label(self._type)}`."
+                )
+            keys.add(key)
+        for item, key in validated:
+            self._list.append(item)
+            self._dict[key] = item
+
     def reverse(self):
         self._list.reverse()
 
